@@ -392,6 +392,15 @@ func runVarFam(vec map[string]interface{}) map[string]interface{} {
 	for i := range qs {
 		qs[i].name = "q" + itoa(i) // 0-based like the SAM families
 	}
+	if gBool(vec, "dupname") && len(qs) > 2 {
+		// two records carry one ID (the same sequence submitted twice, one after the other; and once more at the end):
+		// each is a row of the per-sequence output, each is counted
+		qs[1] = qs[0]
+		qs[len(qs)-1].name = qs[0].name
+	}
+	if k := gIntD(vec, "refnamed", -1); k >= 0 && k < len(qs) {
+		qs[k].name = "ref" // a query named like the reference record of the annotation (its accession included in the SAM file)
+	}
 	feats := parseFeats(gList(vec, "feats"))
 	gb := renderGb(ref, feats)
 	gff := renderGff(ref, feats)
@@ -473,6 +482,13 @@ func runVarFam(vec map[string]interface{}) map[string]interface{} {
 			return obs
 		}
 		res := parseVariantsOut(out.String(), agg)
+		if k := gIntD(vec, "refnamed", -1); k >= 0 {
+			for _, x := range res["rows"].([]interface{}) {
+				if m := x.(map[string]interface{}); m["qi"] == -1 {
+					m["qi"] = k
+				}
+			}
+		}
 		res["err"] = errStr(err)
 		if gBool(vec, "cli") && err == nil && !gBool(r, "stdin") && (gStr(r, "cmd") == "variants" || gStr(r, "cmd") == "samvar") {
 			var args []string
